@@ -3,8 +3,8 @@
 SimpleCookieJar.add / get are interpreted on histories (up to two responses) of
 constant Set-Cookie headers over a small alphabet of names, values and domains (upper
 and lower case, with and without leading dot), followed by lookups for hosts inside,
-outside and look-alike; http.cookies.SimpleCookie is modelled by the analyser's own
-stdlib on those constants.  The Cookie header obtained is compared with an
+outside and look-alike; http.cookies.SimpleCookie / Morsel objects are computed by the
+analyser's own standard library on those constants (wsverif/native.py).  The Cookie header obtained is compared with an
 independent reference jar.  Not decided: what SimpleCookie parses out of arbitrary
 header text; histories longer than the bound.
 """
@@ -21,53 +21,6 @@ from ..rulekit import new_dict, new_list, new_obj, path_text
 from ..values import C, FALSE, NONE, TRUE, App, Cls, Ext, HDict, HObj, Ref, Sym, Tup
 
 JAR = "_cookiejar:SimpleCookieJar"
-
-
-def _cookie_stubs():
-    def mk(I, run, args, kwargs, node):
-        k = len([e for e in run.effects if e.name == "SimpleCookie()"])
-        run.effect("SimpleCookie()", args, node=node)
-        morsels = {}
-        order = []
-        if args:
-            a = I.resolve(run, args[0])
-            if not isinstance(a, C) or not isinstance(a.v, str):
-                raise AnalysisError("SimpleCookie() model needs a constant header")
-            sc = _hc.SimpleCookie(a.v)
-            for name, m in sc.items():
-                morsels[name] = new_obj(run, None, "morsel", value=C(m.value), key=C(name),
-                                        attrs=new_dict(run, {kk: C(vv) for kk, vv in m.items()}, False))
-        return new_obj(run, None, f"cookie{k}", **{"@mapping": new_dict(run, morsels, False)})
-
-    def values(I, run, args, kwargs, node):
-        d = run.cell(run.cell(args[0]).fields["@mapping"])
-        return Tup(tuple(d.items.values()))
-
-    def items(I, run, args, kwargs, node):
-        d = run.cell(run.cell(args[0]).fields["@mapping"])
-        return Tup(tuple(Tup((C(k), v)) for k, v in d.items.items()))
-
-    def update(I, run, args, kwargs, node):
-        d = run.cell(run.cell(args[0]).fields["@mapping"])
-        o = run.cell(run.cell(args[1]).fields["@mapping"])
-        run.effect("cookie.update", args, node=node)
-        d.items.update(o.items)
-        return NONE
-
-    def mget(I, run, args, kwargs, node):
-        a = run.cell(run.cell(args[0]).fields["attrs"])
-        k = I.resolve(run, args[1])
-        return a.items.get(k.v, args[2] if len(args) > 2 else NONE)
-
-    def dyn(name):
-        base, _, m = name.rpartition(".")
-        if base.startswith("cookie") and base[6:].isdigit():
-            return {"values": values, "items": items, "update": update}.get(m)
-        if base == "morsel" and m == "get":
-            return mget
-        return None
-
-    return {"http.cookies.SimpleCookie": mk}, dyn
 
 
 class RefJar:
@@ -103,8 +56,8 @@ HOSTS = ["example.com", "EXAMPLE.COM", "www.example.com", "sub.example.com", "ev
 
 @rule("R-C20-1", min_instances=100, title="jar histories (<=2 responses) x lookups: Cookie value equals the reference jar's")
 def r1(ctx):
-    stubs, dyn = _cookie_stubs()
-    I = Interp(ctx.index, Config(stubs=stubs, dyn_stubs=[dyn]))
+    # http.cookies objects are library objects computed by the library on the constant headers (wsverif/native.py)
+    I = Interp(ctx.index, Config())
     loc = ctx.index.loc(ctx.index.func(f"{JAR}.get").node)
     hist = [(s,) for s in SETS] + list(itertools.product(SETS, SETS))
     if ctx.tier == "thorough":
@@ -155,8 +108,7 @@ def r1(ctx):
 
 @rule("R-C20-2", min_instances=2, title="stored keys are dotted and lower-case; cookies without Domain are not kept")
 def r2(ctx):
-    stubs, dyn = _cookie_stubs()
-    I = Interp(ctx.index, Config(stubs=stubs, dyn_stubs=[dyn]))
+    I = Interp(ctx.index, Config())
     loc = ctx.index.loc(ctx.index.func(f"{JAR}.add").node)
     keys = set()
     for s in SETS + [None, ""]:
